@@ -142,6 +142,14 @@ the failing case (see `known_findings.json`); a violation outside those predicat
   agreement between the readers, and they agreed.  The defect itself is genuine (F16, repaired, now guarded by C03's
   long-record family); C17 reports a failing full load only when a lightweight query still answers, and counts files that
   every reader rejects alike.
+* **C15, Hobby-equation verification at other magnitudes**: three slacks of the harness's own check of the interpolation
+  equations were absolute; with every length multiplied by 1e-9 they raised 33 alarms on HEAD and at 1e+9 they were vacuous.
+  They are now relative to the chord length (the property bounds deviations relative to the curve tolerance).
+* **C03, copies of a repeated element** (first version of `copies_translation_closed`): demanded exact translates of the
+  fractured pieces; the writer rounds (offset + point) per copy, so translates may differ by one grid unit.  Allowed.
+* **C16, caller-owned maps** (first version of the `persistent-map` oracle): an entry reachable only through a cell that is
+  no longer a member may legitimately keep its old value (the recursive query skips the subtree of a name already in the
+  map); the oracle judges the names designated directly by members.
 * Observations deliberately NOT demanded (counted in evidence): GDSII property order reversal on
   load (C01), -0.0 reading back as +0.0 and double rounding of ratio reals with operands above
   2^53 (C19), `element_center` index slip for tapered
@@ -151,12 +159,14 @@ the failing case (see `known_findings.json`); a violation outside those predicat
 
 ### 10.5 Bounds actually completed (see evidence files for measured counts)
 
-Quick tiers complete in 7-80 s each on this machine when run alone (`vp check`: every registered quick command on a
+Quick tiers complete in 10-100 s each on this machine when run alone (`vp check`: every registered quick command on a
 fresh copy, a few minutes in total, nothing needed attention).  `tools/run_all.sh thorough` ran every
-thorough tier end to end (twice; the second sweep after the C06/C09 spaces had been reduced because they hit the
-soft deadline in the first): all exit 0 and all bounds complete - about 24 min for C06, 13-25 min for C02, C05 and C08
-(measured while other jobs loaded the machine), 5-12 min for C03, C07, C09, C12, C13, C16, C20, under 5 min for the
-rest.  A bound that hits the soft deadline is reported `complete=false` / `exhaustive=false` and the check still exits 0.
+thorough tier end to end five times over the session (logs `build/thorough_all*.log`); the last sweep, on the final
+harnesses, is summarised in `notes/thorough_final.log`: every check exits 0 and every bound is complete.  Wall times on
+the otherwise idle machine: about 40 min for C06, 15-30 min for C05, C08, C09, C13, C14, C15, C16, C19, C20, 5-15 min for
+C01, C02, C03, C07, C11, C12, C17, under 5 min for C04, C10, C18.  A bound that hits the soft deadline (5400 s for the heavy
+checks, 3000 s otherwise; it was hit twice while twenty other jobs loaded the machine, never on a quiet one) is reported
+`complete=false` / `exhaustive=false` and the check still exits 0.
 
 ### 10.6 Detection evidence
 
